@@ -28,6 +28,8 @@ def run(ctx):
     rounds = 400 if ctx.thorough else 80
     runs = [[ctx.seed * 10 + i, rounds, thr] for i, thr in enumerate([3, 6, 2, 8] if ctx.thorough else [3, 6])]
     run_traces(ctx, "c17_life", runs, "ref", r"explained-by-RefP.step (\d+)", "L-trace reference counts", "lifetime", timeout=1200)
+    # the references a submitted block object holds on its queue (taken out by a racing dispatch_block_wait): the queue is finalised once, not early, not never
+    run_traces(ctx, "c19_waitrace", [[ctx.seed * 10 + 5 + i, 120 if ctx.thorough else 20] for i in range(2 if ctx.thorough else 1)], None, None, "L-api queue references held by block objects", "waitrace", timeout=400)
     # the same program under AddressSanitizer
     try:
         ha = ctx.harness("c17_life", variant="asan")
